@@ -39,6 +39,8 @@ def build(T, ops=None):
         dom.inline[("NS", name)] = load_method(nameserver.NameServer, name)
     dom.inline[("Storage", "remove_items")] = load_method(nameserver.MemoryStorage, "remove_items")
 
+    dom.pyclasses = {"NS": nameserver.NameServer, "Storage": nameserver.MemoryStorage}
+
     def receiver_is(node, frame, cls):
         d = dotted(node)
         if cls == "NS":
